@@ -9,6 +9,33 @@ from vf import common, drive, persist
 from vf.common import Violation
 from vf.ref import codec
 
+EXC_KINDS = ("runtime", "noargs", "oserror", "keyerror", "nonstr", "badstr")
+
+
+class _BadStr(Exception):
+    """An exception of a client library whose text cannot be produced."""
+
+    def __str__(self):
+        raise TypeError("no text for this error")
+
+
+def client_error(rec, what):
+    """What an MQTT client library may raise from publish / subscribe: with a message, without any argument,
+    an OSError with errno, a KeyError, one with a non-string argument, one whose str() itself fails."""
+    kind = rec.get("exc_kind", "runtime")
+    if kind == "noargs":
+        return TimeoutError()
+    if kind == "oserror":
+        return ConnectionResetError(104, "Connection reset by peer")
+    if kind == "keyerror":
+        return KeyError(what)
+    if kind == "nonstr":
+        return ValueError(b"\xff", 7)
+    if kind == "badstr":
+        return _BadStr()
+    return RuntimeError(f"{what} raises on purpose")
+
+
 PROP = "C17"
 RULE = (
     "Hypothesis-generated cases of three kinds. map: in/out prefix over {letters, digits, '-', '/'} - empty, single "
@@ -116,6 +143,7 @@ def sub_cases(draw):
         "ext": draw(st.sampled_from(["json", "pickle"])),
         "live": net([3, 4, 5, 200]) + (["9;1;0;0;6;child of unknown node"] if draw(st.booleans()) else []),
         "sub_raises": draw(st.booleans()),
+        "exc_kind": draw(st.sampled_from(EXC_KINDS)),
         "pub_raises": draw(st.booleans()),
     }
 
@@ -175,12 +203,12 @@ def make_gateway(case, version="2.2", persistence_file=None):
     def pub(topic, payload, qos, retain):
         rec["pubs"].append((topic, payload, qos, retain))
         if rec["pub_raise"]:
-            raise RuntimeError("publish raises on purpose")
+            raise client_error(rec, "publish")
 
     def sub(topic, callback, qos):
         rec["subs"].append((topic, qos))
         if rec["sub_raise"]:
-            raise RuntimeError("subscribe raises on purpose")
+            raise client_error(rec, "subscribe")
 
     kw = dict(in_prefix=case["in_prefix"], out_prefix=case["out_prefix"], retain=case.get("retain", True), protocol_version=version)
     if persistence_file:
@@ -258,6 +286,7 @@ def check_subs(case, stats=None):
         use_persistence = bool(case["restored"]) or case.get("persistence", True)
         gw, rec = make_gateway(case, version, path if use_persistence else None)
         rec["sub_raise"] = case["sub_raises"]
+        rec["exc_kind"] = case.get("exc_kind", "runtime")
         rec["pub_raise"] = case["pub_raises"]
         try:
             if use_persistence:
